@@ -50,3 +50,14 @@ def for_property(pid, repo, seed=0):
     r = run(repo, pid.lower() + '_', seed)
     r['witnesses'] = [w for w in r['witnesses'] if w['property'] == pid]
     return r
+
+
+if __name__ == '__main__':
+    import sys
+    pid = sys.argv[1] if len(sys.argv) > 1 else ''
+    r = for_property(pid, os.environ.get('VX_REPO', '/repo'), int(os.environ.get('VERIF_SEED', '0') or 0)) if pid else run(os.environ.get('VX_REPO', '/repo'))
+    print(f"built={r['ok']} cases={r['cases']} wall={r['wall']:.1f}s")
+    for w in r['witnesses']:
+        print('WITNESS', w)
+    if not r['ok']:
+        print(r['log'])
